@@ -433,7 +433,10 @@ func (mw *msgWriter) writePart(part *Part, charset Charset) {
 	if mw.depth > 0 {
 		mimeHeader := textproto.MIMEHeader{}
 		if part.description != "" {
-			mimeHeader.Add(string(HeaderContentDescription), part.description)
+			// The description is free text provided by the user, it has to be encoded like any
+			// other header value (which also keeps CR/LF in it from ending the header line)
+			mimeHeader.Add(string(HeaderContentDescription),
+				mw.encoder.Encode(mw.charset.String(), part.description))
 		}
 		mimeHeader.Add(string(HeaderContentTransferEnc), contentTransferEnc)
 		mimeHeader.Add(string(HeaderContentType), contentType)
